@@ -84,3 +84,13 @@ claim("C15",
       "Trusts tower_http::limit::RequestBodyLimitLayer / Limited semantics (413 on declared length, error after limit bytes read; "
       "exactly-the-limit passes) – boundary behaviour is the library's.",
       "DESIGN.md §5 C15")
+
+claim("C11",
+      "path-predicate mode tables + sibling agreement + exactly-one event counting by reachability + actor-arm shape",
+      "Decides per request, for every rule set and mode: the three endpoint authorizers implement the same four-row mode table "
+      "(None->Ok, allowed->Ok, denied+Audit->OkWithAudit, denied->Forbidden); in the handler every result != Ok path passes exactly one "
+      "authorize-failed record and the Ok path none; the record routine routes the flag to the failed-summary actor message; that actor "
+      "arm inserts count=1 or increments by one, keyed by user/ip/port/process/cmdline/status, in a task-local map (single writer); the "
+      "summary is published in the aggregate status. Totals over histories (24h reset) are not decided.",
+      "Trusts rustc MIR + extractor, tokio channel delivery; Forbidden=>403/no relay is C01; disabled-mode shortcut is C02.R4.",
+      "DESIGN.md §5 C11")
